@@ -318,3 +318,19 @@ M("c11-denm-area", "C11", "flexstack/facilities/decentralized_environmental_noti
   "                longitude=denm_to_send.denm[\"denm\"][\"management\"][\n                    \"eventPosition\"\n                ][\"longitude\"],", "                longitude=denm_to_send.denm[\"denm\"][\"management\"][\n                    \"eventPosition\"\n                ][\"latitude\"],", "DENM area longitude taken from the latitude")
 M("c11-role-revert", "C11", "flexstack/facilities/ca_basic_service/cam_transmission_management.py",
   "    \"taxi\", \"uvar\", \"rfu1\", \"rfu2\",", "    \"taxi\", \"reserved1\", \"rfu1\", \"rfu2\",", "revert: role 13 name not in the enumeration")
+
+# ---------------------------------------------------------------- C17
+M("c17-le", "C17", "flexstack/facilities/decentralized_environmental_notification_service/denm_transmission_management.py",
+  "        while transmission_time < denm_request.time_period:", "        while transmission_time <= denm_request.time_period:", "one repetition too many when T is a multiple of i")
+M("c17-sleep-unit", "C17", "flexstack/facilities/decentralized_environmental_notification_service/denm_transmission_management.py",
+  "            time.sleep(denm_request.denm_interval / 1000)", "            time.sleep(denm_request.denm_interval / 1024)", "interval divided by 1024")
+M("c17-seq-per-msg", "C17", "flexstack/facilities/decentralized_environmental_notification_service/denm_transmission_management.py",
+  "            new_denm.sequence_number = event_sequence_number\n", "            new_denm.sequence_number = self._next_sequence_number()\n", "sequence number allocated per message instead of per event")
+M("c17-seq-revert", "C17", "flexstack/facilities/decentralized_environmental_notification_service/denm_transmission_management.py",
+  "            new_denm.sequence_number = event_sequence_number\n", "", "revert: every event uses sequence number 0")
+M("c17-area", "C17", "flexstack/facilities/decentralized_environmental_notification_service/denm_transmission_management.py",
+  "                header_subtype=GeoBroadcastHST.GEOBROADCAST_CIRCLE,", "                header_subtype=GeoBroadcastHST.GEOBROADCAST_RECT,", "DENM broadcast to a rectangle")
+M("c17-ldm-pos", "C17", "flexstack/facilities/decentralized_environmental_notification_service/denm_reception_management.py",
+  "                    longitude=denm[\"denm\"][\"management\"][\"eventPosition\"][\"longitude\"],", "                    longitude=denm[\"denm\"][\"management\"][\"eventPosition\"][\"latitude\"],", "LDM location longitude taken from latitude")
+M("c17-seq-race", "C17", "flexstack/facilities/decentralized_environmental_notification_service/denm_transmission_management.py",
+  "            self.sequence_number = (self.sequence_number + 1) % 65536\n        return sequence_number", "            self.sequence_number = (self.sequence_number + 1) % 2\n        return sequence_number", "sequence number wraps after two events")
